@@ -224,6 +224,9 @@ def scan_is_all_zero(I, outs, src):
         o = rets[0]
         calls = [e for e in o.st.events if e[0] == 'call']
         fin = [e for e in calls if e[1].endswith('Iterator::all') or e[1].endswith('Iterator::any')]
+        folds = [e for e in calls if e[1].endswith('::fold')]
+        if not fin and len(folds) == 1 and len(folds[0][2]) == 3:
+            return _fold_is_all_zero(I, o, folds[0])
         if len(fin) != 1 or len(fin[0][2]) != 2:
             return False, 'calls %r' % ([c[1] for c in calls],)
         po, _ = _apply_to_entry(I, fin[0][2][1])
@@ -263,6 +266,42 @@ def scan_is_all_zero(I, outs, src):
     return ok, '; '.join(why)
 
 
+def _fold_is_all_zero(I, o, call):
+    """`iter().fold(0, |acc, e| acc | bits(e)) == 0`: the accumulator starts at zero, each step ORs every bit of the accumulator and every
+    bit of the entry into the result (so it is zero exactly while everything seen was zero), and the function returns `result == 0`"""
+    init, f = call[2][1], call[2][2]
+    if not (isinstance(init, BV) and init.is_const() and init.value() == 0 and isinstance(f, Closure)):
+        return False, 'fold does not start from the constant 0 with a closure'
+    st = State()
+    eref = arg_obj(st, 'e', Struct(PTE, [BV.sym(64, 'e')]))
+    loc = ('obj', 'clo-env')
+    st.mem[loc] = f
+    cf = I.fn[f.name]
+    envarg = Ref(loc) if cf['locals'][1].get('k') == 'ref' else f
+    acc = BV.sym(init.w, 'acc')
+    try:
+        po = I.run_fn(cf, [envarg, acc, eref], st, {})
+    except Exception as ex:  # arity / shape the rule does not know
+        return False, 'fold step not analysable: %r' % (ex,)
+    if len(po) != 1 or po[0].kind != 'ret' or not isinstance(po[0].val, BV):
+        return False, 'fold step not analysable: %r' % (po,)
+    seen = set()
+    for b in po[0].val.bits:
+        if b == 0:
+            continue
+        atoms = [b] if (isinstance(b, tuple) and b[0] == 'v') else (list(b[1]) if isinstance(b, tuple) and b[0] == 'or' else None)
+        if atoms is None or any(not (isinstance(a, tuple) and a[0] == 'v' and not a[3]) for a in atoms):
+            return False, 'fold step is not an OR of accumulator and entry bits: %r' % (po[0].val,)
+        seen.update((a[1], a[2]) for a in atoms)
+    want = {('acc', i) for i in range(init.w)} | {('e', i) for i in range(64)}
+    if seen != want:
+        return False, 'fold step drops bits %r' % (sorted(want - seen)[:4],)
+    tag = 'fold#%d' % call[5]
+    res = o.val
+    okr = isinstance(res, BV) and res.w == 1 and same(res, BV(1, [eq0_bit(tuple(sl(tag, 0, init.w)))]))
+    return okr, 'fold of OR over all entry bits, compared with zero: result %r' % (res,)
+
+
 def b_not_(b):
     from ..bits import b_not
     return b_not(b)
@@ -286,8 +325,8 @@ def scan_sets_all_zero(I, outs, src):
     detail = 'paths %r' % (outs,)
     if okz:
         ev = [e for e in loops[0].st.events if e[0] in ('call', 'icall', 'write')]
-        names = [e[1].split('::')[-1] for e in ev if e[0] != 'write']
-        okz = names[:3] == [src, 'into_iter', 'next'] and ev[0][2][0].loc == ('arg', 'self')
+        names = [e[1].split('::')[-1] for e in ev if e[0] != 'write' and not e[1].endswith('::into_iter')]
+        okz = names[:2] == [src, 'next'] and ev[0][2][0].loc == ('arg', 'self')
         if okz:
             nxt = [e for e in ev if e[0] == 'call' and e[1].endswith('::next')][0]
             ws = [e for e in ev if e[0] == 'write']
@@ -297,7 +336,7 @@ def scan_sets_all_zero(I, outs, src):
             if okz:
                 fin = loops[0].st.mem.get(next(iter(locs)))
                 okz = fin is not None and eval_value(inner(fin), {}) == 0
-        evr = [e[1].split('::')[-1] for e in rets[0].st.events if e[0] in ('call', 'icall')]
-        okz = okz and evr[:3] == [src, 'into_iter', 'next'] and not [e for e in rets[0].st.events if e[0] == 'write']
+        evr = [e[1].split('::')[-1] for e in rets[0].st.events if e[0] in ('call', 'icall') and not e[1].endswith('::into_iter')]
+        okz = okz and evr[:2] == [src, 'next'] and not [e for e in rets[0].st.events if e[0] == 'write']
         detail = 'loop-iteration events %s; exit events %s' % (names, evr)
     return okz, detail
